@@ -120,3 +120,29 @@ Theorem C06_adjacent_zero_or_more_verdicts_have_a_witness : forall e t sp, parse
   check t = Ok (Some (AdjacentZeroOrMore, sp)) -> exists x, Expands t x /\ zchain false x = false.
 Proof. exact parsed_adjacent_zom_is_real. Qed.
 Print Assumptions C06_adjacent_zero_or_more_verdicts_have_a_witness.
+
+From WaxProofs Require Import RuleAdjRep RuleZomRep.
+
+(* with repetitions: for every glob that builds and whose repetitions are all written out at least once with a body that begins and
+   ends with a leaf (`<a/:1,>b`, `{<ab:1,3>,c}/**`), no expansion - no choice of branches, no number of copies - holds two adjacent
+   boundaries.  The induction of the repetition-free case with one more in-context claim: the body of a repetition is an item in the
+   repetition's own context, and consecutive copies meet at the body's two leaf terminals, which check_repetition compared.  The two
+   conditions are sharp: a repetition that may be written out zero times lets its neighbours meet (`a/<b:0,>/c` builds and expands
+   to `a//c`), and the wrap-around adjacency is only checked on leaf terminals (known class wraparound_nested_edge) *)
+Theorem C06_built_globs_with_required_repetitions_have_no_adjacent_boundaries : forall e t r,
+  build e = BuildOk t r -> rep_class t = true -> forall x, Expands t x -> chain_ok false x = true.
+Proof. exact built_no_adjacent_boundaries_r. Qed.
+Print Assumptions C06_built_globs_with_required_repetitions_have_no_adjacent_boundaries.
+
+(* the second adjacency rule has no wrap-around check at all (`<*a*:2>` builds and expands to `*a**a*`): the class excludes bodies that
+   both begin and end with a zero-or-more wildcard *)
+Theorem C06_built_globs_with_required_repetitions_have_no_adjacent_zero_or_more_wildcards : forall e t r,
+  build e = BuildOk t r -> rep_class t = true -> shz t = true -> forall x, Expands t x -> zchain false x = true.
+Proof. exact built_no_adjacent_zoms_r. Qed.
+Print Assumptions C06_built_globs_with_required_repetitions_have_no_adjacent_zero_or_more_wildcards.
+
+(* the premises are satisfiable: {<a/:1,>b,c}/** *)
+Example C06_repetition_class_nonvacuous :
+  let e := [123;60;97;47;58;49;44;62;98;44;99;125;47;42;42]%N in
+  exists t r, build e = BuildOk t r /\ rep_class t = true /\ shz t = true /\ rep_free t = false.
+Proof. cbv zeta. do 2 eexists. repeat split; vm_compute; reflexivity. Qed.
